@@ -19,6 +19,33 @@ func keyComponents(p *Prog, keyType *types.Named) ([]string, string) {
 	if len(rets) != 1 {
 		return nil, "ByteSlices has several returns"
 	}
+	// the key is encoded as it is: its address is not handed to anything that could rewrite a field first
+	if len(fn.Params) > 0 {
+		if refs := fn.Params[0].Referrers(); refs != nil {
+			for _, rf := range *refs {
+				st, isSt := rf.(*ssa.Store)
+				if !isSt || st.Val != ssa.Value(fn.Params[0]) {
+					continue
+				}
+				al, isAl := st.Addr.(*ssa.Alloc)
+				if !isAl || al.Referrers() == nil {
+					continue
+				}
+				for _, u := range *al.Referrers() {
+					if c, isCall := u.(ssa.CallInstruction); isCall {
+						return nil, fmt.Sprintf("the key's address is handed to %s before it is encoded: the encoded components are not the key's fields", calleeName(c.Common()))
+					}
+					if fa, isFA := u.(*ssa.FieldAddr); isFA && fa.Referrers() != nil {
+						for _, u2 := range *fa.Referrers() {
+							if s2, isS := u2.(*ssa.Store); isS && s2.Addr == ssa.Value(fa) {
+								return nil, "a field of the key is assigned before it is encoded: the encoded components are not the key's fields"
+							}
+						}
+					}
+				}
+			}
+		}
+	}
 	t := o.Of(rets[0].Results[0])
 	if t.Op != "slicelit" {
 		return nil, "ByteSlices does not return a slice literal: " + t.String()
